@@ -1350,7 +1350,7 @@ fn real_main() {
   }
 
   // ---- random documents
-  let n_docs = scaled(if args.thorough { 200_000 } else { 8_000 }).max(6);
+  let n_docs = scaled(if args.thorough { 1_000_000 } else { 8_000 }).max(6);
   let exhaustive_every = if args.thorough { 40 } else { 25 };
   for i in 0..n_docs {
     let big = rng.chance(1, 12);
@@ -1387,7 +1387,7 @@ fn real_main() {
   }
 
   // ---- byte strings that are not packed documents
-  let n_bytes = scaled(if args.thorough { 400_000 } else { 24_000 }).max(40);
+  let n_bytes = scaled(if args.thorough { 2_000_000 } else { 24_000 }).max(40);
   let seed_doc = {
     let m = gen_doc(&mut rng, false);
     serde_json::to_vec(&m.render(PLACEHOLDER, true, true)).expect("json")
